@@ -50,7 +50,8 @@ PARAMS = {
     "male": ("bool", [True, False]),
     "max_minor_solutions": ("int", [2, 1]),
     "display_format": ("bool", [True, False]),
-    "debug_probe": ("str", ["", "zzz"]),
+    # (string values are taken as given, capitals included: the documentation's own example is I223M)
+    "debug_probe": ("str", ["", "zzz", "I223M", "Zz9"]),
     "debug_novel": ("bool", [True, False]),
     "min_avg_coverage": ("float", [3.0, 1]),
     "vcf_sample_idx": ("int", [1, 0]),
